@@ -66,7 +66,7 @@ package jsonapi
 //@ requires wf: schemaWf(s)
 //@ modifies heap[Type], maps[map[string]Attr]
 //@ ensures missing: !old(hasType(s, typ)) ==> result != nil
-//@ ensures accept: forall i int :: 0 <= i && i < old(len(s.Types)) && old(s.Types[i].Name) == typ ==> (result == nil) == (attr.Name != "" && validKind(attr.Type) && !(attr.Name in old(mapdom(s.Types[i].Attrs))))
+//@ ensures accept: forall i int :: 0 <= i && i < old(len(s.Types)) && old(s.Types[i].Name) == typ ==> (result == nil) == (attr.Name != "" && validKind(attr.Type) && !(attr.Name in old(mapdom(s.Types[i].Attrs))) && !(attr.Name in old(mapdom(s.Types[i].Rels))))
 //@ ensures unchanged-on-error: result != nil ==> typesSame(s)
 //@ ensures added: result == nil ==> (forall i int :: 0 <= i && i < len(s.Types) && s.Types[i].Name == typ ==> attr.Name in s.Types[i].Attrs && s.Types[i].Attrs[attr.Name] == attr)
 //@ ensures header: s.Types == old(s.Types)
@@ -94,7 +94,7 @@ package jsonapi
 //@ requires wf: schemaWf(s)
 //@ modifies heap[Type], maps[map[string]Rel]
 //@ ensures missing: !old(hasType(s, typ)) ==> result != nil
-//@ ensures accept: forall i int :: 0 <= i && i < old(len(s.Types)) && old(s.Types[i].Name) == typ ==> (result == nil) == (rel.FromName != "" && rel.ToType != "" && !(rel.FromName in old(mapdom(s.Types[i].Rels))))
+//@ ensures accept: forall i int :: 0 <= i && i < old(len(s.Types)) && old(s.Types[i].Name) == typ ==> (result == nil) == (rel.FromName != "" && rel.ToType != "" && !(rel.FromName in old(mapdom(s.Types[i].Rels))) && !(rel.FromName in old(mapdom(s.Types[i].Attrs))))
 //@ ensures unchanged-on-error: result != nil ==> typesSame(s)
 //@ ensures added: result == nil ==> (forall i int :: 0 <= i && i < len(s.Types) && s.Types[i].Name == typ ==> rel.FromName in s.Types[i].Rels && s.Types[i].Rels[rel.FromName] == rel)
 //@ ensures header: s.Types == old(s.Types)
@@ -118,7 +118,7 @@ package jsonapi
 //@ loop 0 invariant untouched: (forall k int :: 0 <= k && k <= $idx ==> s.Types[k].Name != typ) ==> typesSame(s)
 
 // relFree: relationship name n is free in every type named tn; holdsRel: every type named tn holds r under n.
-//@ spec relFree(s *Schema, tn string, n string) = forall i int :: 0 <= i && i < len(s.Types) && s.Types[i].Name == tn ==> !(n in s.Types[i].Rels)
+//@ spec relFree(s *Schema, tn string, n string) = forall i int :: 0 <= i && i < len(s.Types) && s.Types[i].Name == tn ==> !(n in s.Types[i].Rels) && !(n in s.Types[i].Attrs)
 //@ spec holdsRel(s *Schema, tn string, n string, r Rel) = forall i int :: 0 <= i && i < len(s.Types) && s.Types[i].Name == tn ==> n in s.Types[i].Rels && s.Types[i].Rels[n] == r
 
 //@ func Schema.AddTwoWayRel
